@@ -54,6 +54,10 @@ def scenarios(seed, tier):
     # probe: lines with losses whose capacities allow the flow from the second to the first node (finding F-02c)
     for i in range(n // 8):
         yield 'rv%d' % i, {'stream': 'reversed', 'case': TB.gen_reversed_case(random.Random(rnd.getrandbits(48)))}
+    # the same kind of portfolio through the other doors of the package (io.optimize with the data in several containers,
+    # run_from_json, set_param): comp/entry.py
+    from ..comp import entry as EN
+    yield from EN.stream(seed, n // 8, ('io',), tmax=10 if tier == 'quick' else 16)
 
 
 def _grouping(scn, rnd):
@@ -116,6 +120,11 @@ def _scaling(scn, rnd):
 
 
 def run_case(c, drv):
+    if c.get('_stream') == 'entry':
+        # the optimum does not depend on the door: io.optimize (data cast into the grid) = explicit pipeline, which the
+        # textbook stream compares with the reference
+        from ..comp import entry as EN
+        return EN.run_stream_case(c, ('entry_point',))
     if c['stream'] == 'textbook' and c.get('group'):
         # the structure with window W around some assets = the flat portfolio with those assets' windows cut to W: the textbook
         # reference of the FLAT portfolio (checked as usual) is also the reference of the wrapped one
